@@ -15,11 +15,11 @@ PROPS = {
     "C03_lazy": _part(
         ["Props.C05_float"], [("fam_floatq", "gen_lazy", 120, 8000)],
         "lazy categorical model decoded at quantiles next to interval edges",
-        "The lazy model's decoder returns an entry of the eager table for every quantile (C05_lazy_dec_eq_eager_"
-        "partial: equality with the table lookup under the skip-ahead hypothesis fq_skip_ok; the hypothesis itself is "
-        "validated by edge-aimed quantiles incl. f32 at PRECISION 31/32).",
+        "The lazy model's decoder returns exactly the eager table's entry for every quantile (C05_lazy_dec_eq_eager, "
+        "full since Proofs/FloatQ_skip.v discharged the skip-ahead hypothesis fq_skip_ok for f32 and f64; also "
+        "exercised by edge-aimed quantiles incl. f32 at PRECISION 31/32).",
         "Flocq-based; standard-library axioms classic, sig_forall_dec, sig_not_dec, functional_extensionality_dep.",
-        "Coq proof (partial) + correspondence"),
+        "Coq proof + correspondence"),
     "C05_leaky": _part(
         ["Props.C03_leaky:C05_"], [("fam_leaky", "gen_step", 120, 10000), ("fam_leaky", "gen_real", 60, 8000)],
         "leaky model whose full symbol table was dumped and compared with direct queries",
